@@ -604,7 +604,8 @@ def check_legend_text(ctx, text, mb, h, want_asym, det):
             if not np.all(np.isfinite(a)):
                 a = np.array([-h["errors"][i], h["errors"][i]])
             U, Dn = nums[1], nums[2]
-            if not ctx.check("legend.asym-error", within_half(U.d, U.q, a[1]) and within_half(Dn.d, Dn.q, abs(a[0])), d):
+            # the form '^{+U}_{-D}' displays magnitudes (MINOS may return an 'upper' error below zero for ill-determined fits)
+            if not ctx.check("legend.asym-error", within_half(U.d, U.q, abs(a[1])) and within_half(Dn.d, Dn.q, abs(a[0])), d):
                 return False
     gof, ndf = h["gof"], h["ndf"]
     dq = lambda: dict(det, held_gof=gof, held_ndf=ndf, held_cost=h["cost"], held_probability=h["prob"])  # noqa: E731
@@ -853,6 +854,10 @@ def _run_case(ctx, case):
             ctx.discard("results-not-readable")
             return False
         mb.sync_from_fit()
+        free_idx = [i for i, n in enumerate(mb.ref.model.pnames) if n not in mb.ref.fixed]
+        if cur["errors"] is None or not np.all(np.isfinite(cur["errors"][free_idx])) or np.any(cur["errors"][free_idx] <= 0):
+            ctx.discard("fit-degenerate-no-valid-parameter-errors")
+            return False
         if not np.all(np.isfinite(mb.ref.p)) or not mb.admissible():
             ctx.discard("fit-result-not-admissible")
             return False
